@@ -79,7 +79,10 @@ Inductive kont :=
  | KGatherCb (t : tid)                                (* asyncio.gather's _done_callback *)
  | KPruneFin (t : tid)                                (* prune task resumes after gather *)
  | KAcqDead (t : tid)                                 (* first step of an acquire task cancelled before it started *)
- | KAcqWakeC (t : tid) (b : bid).                     (* the acquire task resumes with CancelledError *)
+ | KAcqWakeC (t : tid) (b : bid) (late : bool).
+   (* the acquire task resumes with CancelledError; late = its waiter future had already been
+      completed (result or exception) when the task was cancelled, otherwise the future itself
+      was cancelled and still sits in the deque *)
 
 (* float / clock dependent decisions, read off the real pool by the harness *)
 Record oracle := mkOracle {
@@ -503,11 +506,23 @@ Definition acquire_wake (t : tid) (i : bid) (ok : bool) (s : pool) : pool :=
     let b2 := get_blk i s2 in
     emit (OAcqFailed t) (set_nacq (s2.(nacq) - 1) (upd (set_b_nwait (b2.(b_nwait) - 1) b2) s2)).
 
-(* the acquire task resumes with CancelledError (thrown at `await waiter`): `except Exception`
-   does not catch it; only the finally clauses of try_acquire and Pool.acquire run *)
-Definition acquire_cancelled (t : tid) (i : bid) (s : pool) : pool :=
+Fixpoint remove_done (t : tid) (ws : list (tid * wk)) : list (tid * wk) :=
+  match ws with
+  | [] => []
+  | (t', WDone) :: r => if (t' =? t)%N then r else (t', WDone) :: remove_done t r
+  | w :: r => w :: remove_done t r
+  end.
+(* the acquire task resumes with CancelledError (thrown at `await waiter`).  Since fix 7b54f16
+   the cleanup handler of try_acquire is `except BaseException`: the waiter is removed from the
+   deque if it is still there; if the waiter had been completed (not cancelled) and a
+   connection is on the stack, the wake-up is passed on; then the finally clauses run. *)
+Definition acquire_cancelled (t : tid) (i : bid) (late : bool) (s : pool) : pool :=
   let b := get_blk i s in
-  emit (OAcqCancelled t) (set_nacq (s.(nacq) - 1) (upd (set_b_nwait (b.(b_nwait) - 1) b) s)).
+  let s2 :=
+    if late then match b.(b_stack) with [] => s | _ :: _ => wakeup_next i s end
+    else upd (set_b_waiters (remove_done t b.(b_waiters)) b) s in
+  let b2 := get_blk i s2 in
+  emit (OAcqCancelled t) (set_nacq (s2.(nacq) - 1) (upd (set_b_nwait (b2.(b_nwait) - 1) b2) s2)).
 
 (* Task.cancel() on an acquire() task that has not returned yet *)
 Definition kont_task (k : kont) : option tid :=
@@ -517,7 +532,7 @@ Definition is_task (t : tid) (k : kont) : bool :=
 Definition cancel_kont (t : tid) (k : kont) : kont :=
   match k with
   | KAcqStart t' _ => if (t' =? t)%N then KAcqDead t else k          (* _must_cancel: throws at the first step *)
-  | KAcqWake t' i _ => if (t' =? t)%N then KAcqWakeC t i else k      (* waiter already done: _must_cancel *)
+  | KAcqWake t' i _ => if (t' =? t)%N then KAcqWakeC t i true else k (* waiter already done: _must_cancel *)
   | _ => k
   end.
 (* a cancel that hits a task whose waiter has already been woken successfully *)
@@ -549,7 +564,7 @@ Definition cancel (t : tid) (s : pool) : option pool :=
     match find_waiting t s.(blocks) with
     | Some b =>
         (* waiter.cancel(): the future stays in the deque, its callback (the task wake-up) is scheduled *)
-        Some (push (KAcqWakeC t b.(b_id)) (upd (set_b_waiters (mark_done t b.(b_waiters)) b) s))
+        Some (push (KAcqWakeC t b.(b_id) false) (upd (set_b_waiters (mark_done t b.(b_waiters)) b) s))
     | None => None
     end.
 
@@ -815,7 +830,7 @@ Definition run_kont (o : oracle) (k : kont) (s : pool) : pool :=
   | KGatherCb t => gather_cb t s
   | KPruneFin t => emit (OPruneDone t) s
   | KAcqDead t => emit (OAcqCancelled t) s     (* CancelledError thrown into the unstarted coroutine *)
-  | KAcqWakeC t i => acquire_cancelled t i s
+  | KAcqWakeC t i late => acquire_cancelled t i late s
   end.
 
 (* ------------------------------------------------------------------ external events *)
